@@ -229,6 +229,49 @@ def dcstep_vcs():
     return vcs
 
 
+# --------------------------------------------------------------------------------------------- (c) dcstep on a convex quadratic
+def convexq_vcs():
+    """phi(t) = a t^2 + b t + c, a > 0, b < 0.  dcstep is handed samples (t, q(t), q'(t)) of q = phi (stage 2, or stage 1 with
+    psi(stp) <= 0 or f > fx) or of the modified function q = psi + const = a t^2 + (1 - c1) b t + c (stage 1): both are convex
+    quadratics a t^2 + B t + c with B < 0, minimiser -B/(2a).  Claims: cases 1 and 2 return that minimiser exactly (cubic,
+    quadratic and secant steps coincide), case 3 returns it unless a bound / the safeguard cuts it, case 4 cannot occur; the
+    minimiser of phi satisfies Armijo for c1 <= 1/2 and strong Wolfe; the minimiser of the MODIFIED function satisfies both
+    for every 0 < c1 < c2 < 1 (phi' there is c1*b)."""
+    dc = dcstep()
+    out_, src = dc['out'], dc['src']
+    R = reference()
+    decl = [(k, 'Bool' if k == 'brackt' else 'Real') for k in ('stx', 'sty', 'stp', 'brackt', 'stpmin', 'stpmax', 'delta', 'qa', 'qb', 'qc', 'c1', 'c2')]
+    vcs = []
+    for mode, B, extra in (('phi', 'qb', ['(<= c1 0.5)']), ('the modified function psi', '(* (- 1.0 c1) qb)', [])):
+        q = lambda t: f'(+ (* qa {t} {t}) (* {B} {t}) qc)'
+        dq = lambda t: f'(+ (* 2.0 qa {t}) {B})'
+        m = {'fx': q('stx'), 'dx': dq('stx'), 'fp': q('stp'), 'dp': dq('stp'), 'fy': q('sty'), 'dy': dq('sty')}
+        I = lambda t: interp_smt.inst(t, m)
+        tstar = f'(/ (- {B}) (* 2.0 qa))'
+        hy = ['(> qa 0.0)', '(< qb 0.0)', '(< 0.0 c1)', '(< c1 c2)', '(< c2 1.0)', '(not (= stx stp))', I('(not (= dx 0.0))')]
+        c12 = I(OR(R['case'][1], R['case'][2]))
+        about = f'dcstep on samples of {mode} for a 1-D convex quadratic phi (double treated as real)'
+        new = I(out_['stp'])
+        vcs.append(mkvc(f'convexq/dcstep on {mode}/cases 1 and 2: every division / sqrt of the code is defined and the new step is the exact minimiser of the sampled quadratic',
+                        decl, hy + [c12], f'(and {I(dc["defined"])} (= {new} {tstar}))', about, src))
+        # (a trial point that IS the minimiser, dp = 0, falls into case 3 as well: the cubic step equals stp, is not "beyond" it, and the bound is taken)
+        vcs.append(mkvc(f'convexq/dcstep on {mode}/case 3, not bracketed, the trial point is not the minimiser itself and the minimiser lies inside [stpmin, stpmax]: the new step is the exact minimiser',
+                        decl, hy + [I(R['case'][3]), '(not brackt)', I('(not (= dp 0.0))'), f'(<= stpmin {tstar})', f'(<= {tstar} stpmax)'], f'(and {I(dc["defined"])} (= {new} {tstar}))', about, src))
+        vcs.append(mkvc(f'convexq/dcstep on {mode}/case 3, bracketed: the new step is the exact minimiser cut by the safeguard stp + delta*(sty - stp)',
+                        decl, hy + [I(R['case'][3]), 'brackt', I('(not (= dp 0.0))')], f'(= {new} (ite (> stp stx) (rmin {tstar} {R[3]["guard"]}) (rmax {tstar} {R[3]["guard"]})))', about, src))
+        vcs.append(mkvc(f'convexq/dcstep on {mode}/case 4 (lower value, same sign, |dp| >= |dx|) cannot occur on two distinct samples', decl, hy, NOT(I(R['case'][4])), about, src))
+        # the advertised conditions of More-Thuente, for phi, at the step dcstep returns in cases 1 / 2
+        ph = lambda t: f'(+ (* qa {t} {t}) (* qb {t}) qc)'
+        dph = lambda t: f'(+ (* 2.0 qa {t}) qb)'
+        adv = f'(and (> {new} 0.0) (<= {ph(new)} (+ {ph("0.0")} (* c1 {new} {dph("0.0")}))) (<= (rabs {dph(new)}) (* c2 (rabs {dph("0.0")}))))'
+        dom = ' and c1 <= 1/2' if extra else ' for every 0 < c1 < c2 < 1'
+        vcs.append(mkvc(f'convexq/dcstep on {mode}/cases 1 and 2: the new step is > 0 and satisfies Armijo and strong Wolfe for phi{dom} (the convergence test of do_get at the next evaluation)',
+                        decl, hy + extra + [c12], adv, about, src))
+        vcs.append(mkvc(f'convexq/dcstep on {mode}/reachability canary: cases 1 / 2 on samples of a convex quadratic are satisfiable', decl, hy + extra + [c12], None,
+                        'vacuity guard (must be sat)', src, expect='sat'))
+    return vcs
+
+
 # --------------------------------------------------------------------------------------------- do_get: stage logic against dcsrch
 DC_ARGS = ('stx', 'fx', 'dx', 'sty', 'fy', 'dy', 'stp', 'fp', 'dp', 'brackt', 'stpmin', 'stpmax', 'delta')
 HAVOC = ('stx', 'fx', 'gx', 'sty', 'fy', 'gy', 'brackt', 'stp')
@@ -359,7 +402,7 @@ def build_do_get():
 
 
 def build():
-    vcs = dcstep_vcs()
+    vcs = dcstep_vcs() + convexq_vcs()
     fns = [dcstep()['fn']]
     r = build_do_get()
     vcs += r[0]
